@@ -1,7 +1,7 @@
 #!/usr/bin/env python3
 """Run every kept seeded change against the check of its property (quick tier; thorough with
 --thorough-on-miss if quick is silent) and write seeded/RESULTS.json.
-usage: seeded_all.py [--only ID-prefix] [--thorough-on-miss]
+usage: seeded_all.py [--only ID-prefix] [--prop C04,C05] [--thorough-on-miss]
 /repo must be clean; every patch is reverted straight after its run; probes are rebuilt from the
 clean tree at the end."""
 import json, os, re, subprocess, sys, time
@@ -9,6 +9,7 @@ only = None
 thorough_on_miss = '--thorough-on-miss' in sys.argv
 if '--only' in sys.argv:
     only = sys.argv[sys.argv.index('--only') + 1]
+props = sys.argv[sys.argv.index('--prop') + 1].split(',') if '--prop' in sys.argv else None
 root = '/verif/seeded'
 res = {}
 if os.path.exists(root + '/RESULTS.json'):
@@ -19,6 +20,8 @@ for d in sorted(os.listdir(root)):
         continue
     meta = json.load(open(f'{root}/{d}/meta.json'))
     cid = meta.get('check', meta['property'])  # the check that is expected to catch it
+    if props and cid not in props:
+        continue
     t0 = time.time()
     entry = {'check': cid}
     for tier in ['quick'] + (['thorough'] if thorough_on_miss else []):
